@@ -44,6 +44,7 @@ type implRes struct {
 // implEval drives the implementation like repl.evalOne does (parse, macros, Eval) on a given state, under the
 // harness's own recover, with a step budget.
 func implEval(x *sess, src string, budget int) (res implRes) {
+	defer func() { observe("eval", res.out, res.val, res.errText, res.panicked) }()
 	eval.VerifCacheOff = x.cfg.cacheOff
 	defer func() { eval.VerifCacheOff = false }()
 	x.out.Reset()
